@@ -77,6 +77,10 @@ let () =
           e2 := max !e2 (abs_float (di.(r).(c) -. di.(c).(r)) /. sc *. (if abs_float di.(r).(c) > 1e-9 *. abs_float di.(r).(r) then 1.0 else 0.0))
         done done) ab;
     Printf.printf "HYP %h %h\n" !e1 !e2;
+    (* the remaining hypothesis of the any-dof theorems: the elimination pivots of every D block are non-zero *)
+    let pmin = ref infinity in
+    List.iter (fun (_, ps) -> List.iter (fun p -> let a = abs_float p in if not (a >= !pmin) then pmin := a) ps) (out_pivots fops t);
+    Printf.printf "PIV %h\n" !pmin;
     print_endline "END" in
   try while true do
     let line = input_line stdin in
